@@ -212,6 +212,10 @@ func EDiv(a, b *Term) *Term {
 	if b.isConst() && b.c.Cmp(big1) == 0 {
 		return a
 	}
+	// (x * c) div c == x for a positive constant c
+	if b.isConst() && b.c.Sign() > 0 && a.op == "*" && a.args[1].isConst() && a.args[1].c.Cmp(b.c) == 0 {
+		return a.args[0]
+	}
 	t := newTerm("div", SInt, a, b)
 	if b.isConst() && b.c.Sign() > 0 && a.lo != nil && a.hi != nil {
 		lo, _ := new(big.Int).DivMod(a.lo, b.c, new(big.Int))
@@ -229,6 +233,10 @@ func EMod(a, b *Term) *Term {
 	}
 	if b.isConst() && b.c.Sign() > 0 && a.lo != nil && a.hi != nil && a.lo.Sign() >= 0 && a.hi.Cmp(b.c) < 0 {
 		return a
+	}
+	// (x * c) mod c == 0
+	if b.isConst() && b.c.Sign() > 0 && a.op == "*" && a.args[1].isConst() && a.args[1].c.Cmp(b.c) == 0 {
+		return IntConst64(0)
 	}
 	t := newTerm("mod", SInt, a, b)
 	if b.isConst() && b.c.Sign() > 0 {
